@@ -286,6 +286,133 @@ pub fn child_churn(seed: u64, threads: usize) {
     if bad.is_empty() { println!("OK churn {}", threads); } else { println!("FAIL {} of {} churning threads failed: {}", bad.len(), threads, bad[0]); std::process::exit(1); }
 }
 
+/// a shard whose bytes are produced by a complete, independent coding round at the moment the library asks for them
+struct NestedShard(Vec<u8>);
+impl AsRef<[u8]> for NestedShard {
+    fn as_ref(&self) -> &[u8] {
+        // an independent one-shot call and an independent streaming object, inside the callee's `as_ref()` call
+        let o = vec![self.0.clone(), self.0.clone()];
+        let rec = reed_solomon_simd::encode(2, 2, &o).expect("nested encode");
+        let got = reed_solomon_simd::decode(2, 2, [(1usize, &o[1])], [(0usize, &rec[0])]).expect("nested decode");
+        assert_eq!(got.get(&0), Some(&o[0]));
+        let mut e = ReedSolomonEncoder::new(2, 1, self.0.len()).expect("nested encoder");
+        e.add_original_shard(&o[0]).unwrap();
+        e.add_original_shard(&o[1]).unwrap();
+        let _ = e.encode().expect("nested round");
+        &self.0
+    }
+}
+
+/// child: independent codec uses that are NESTED or PIPELINED — the input of one call is produced, while that call is
+/// running, by another independent call (on another thread, or inside `Iterator::next` / `AsRef::as_ref` of the caller's
+/// own input). Independent objects and one-shot calls share no lock a caller could observe, so all of it terminates
+/// (the parent enforces a timeout) with the sequential results.
+pub fn child_pipe(seed: u64) {
+    let mut rng = Prng::new(seed);
+    let sb = *rng.pick(&[2usize, 64, 130]);
+    let inner: Vec<Vec<u8>> = (0..2).map(|_| rng.bytes(sb)).collect();
+    let first = rng.bytes(sb);
+    // sequential reference
+    let inner_rec = reed_solomon_simd::encode(2, 2, &inner).unwrap();
+    let outer_orig = vec![first.clone(), inner_rec[0].clone(), inner_rec[1].clone()];
+    let want = reed_solomon_simd::encode(3, 2, &outer_orig).unwrap();
+
+    // (1) pipelined one-shot encodes on two threads: A's iterator blocks until B's encode has finished
+    for variant in 0..2 {
+        let (go_tx, go_rx) = mpsc::channel::<()>();
+        let (sh_tx, sh_rx) = mpsc::channel::<Vec<u8>>();
+        let inner2 = inner.clone();
+        let b = std::thread::spawn(move || {
+            go_rx.recv().unwrap();
+            let rec = reed_solomon_simd::encode(2, 2, &inner2).unwrap();
+            for r in rec { sh_tx.send(r).unwrap(); }
+        });
+        let mut sent = false;
+        let mut n = 0;
+        let first2 = first.clone();
+        let it = std::iter::from_fn(move || {
+            n += 1;
+            match n {
+                1 => Some(first2.clone()),
+                2 | 3 => {
+                    if !sent { go_tx.send(()).unwrap(); sent = true; }
+                    Some(sh_rx.recv().unwrap())
+                }
+                _ => None,
+            }
+        });
+        let got = if variant == 0 {
+            reed_solomon_simd::encode(3, 2, it).unwrap()
+        } else {
+            // the same through the decode side: originals arrive from the blocking iterator
+            let all: Vec<Vec<u8>> = it.collect();
+            let rec = reed_solomon_simd::encode(3, 2, &all).unwrap();
+            let (tx, rx) = mpsc::channel::<(usize, Vec<u8>)>();
+            let all2 = all.clone();
+            let rec2 = rec.clone();
+            let feeder = std::thread::spawn(move || {
+                // the feeder itself decodes something before it hands over the shards
+                let g = reed_solomon_simd::decode(3, 2, [(0usize, &all2[0]), (2usize, &all2[2])], [(1usize, &rec2[1])]).unwrap();
+                assert_eq!(g.get(&1), Some(&all2[1]));
+                tx.send((0, all2[0].clone())).unwrap();
+                tx.send((2, all2[2].clone())).unwrap();
+            });
+            let originals = std::iter::from_fn(|| rx.recv().ok());
+            let g = reed_solomon_simd::decode(3, 2, originals, [(0usize, &rec[0])]).unwrap();
+            feeder.join().unwrap();
+            if g.get(&1) != Some(&all[1]) { println!("FAIL pipelined decode restored a wrong original"); std::process::exit(1); }
+            rec
+        };
+        b.join().unwrap();
+        if got != want { println!("FAIL pipelined one-shot encode differs from the sequential result (variant {})", variant); std::process::exit(1); }
+    }
+    // (2) nested on ONE thread: the outer call's iterator runs a complete inner call inside `next`
+    {
+        let inner3 = inner.clone();
+        let first3 = first.clone();
+        let mut cache: Option<Vec<Vec<u8>>> = None;
+        let mut n = 0;
+        let it = std::iter::from_fn(move || {
+            n += 1;
+            match n {
+                1 => Some(first3.clone()),
+                2 | 3 => {
+                    if cache.is_none() { cache = Some(reed_solomon_simd::encode(2, 2, &inner3).unwrap()); }
+                    Some(cache.as_ref().unwrap()[n - 2].clone())
+                }
+                _ => None,
+            }
+        });
+        let got = reed_solomon_simd::encode(3, 2, it).unwrap();
+        if got != want { println!("FAIL nested one-shot encode differs from the sequential result"); std::process::exit(1); }
+    }
+    // (3) nested through `AsRef`: the shard handed to a streaming object / a one-shot call runs independent rounds
+    //     when the library asks for its bytes
+    {
+        let shards: Vec<NestedShard> = outer_orig.iter().map(|v| NestedShard(v.clone())).collect();
+        let mut e = ReedSolomonEncoder::new(3, 2, sb).unwrap();
+        for s in &shards { e.add_original_shard(s).unwrap(); }
+        let got: Vec<Vec<u8>> = e.encode().unwrap().recovery_iter().map(|s| s.to_vec()).collect();
+        if got != want { println!("FAIL streaming encoder fed with nesting shards differs from the sequential result"); std::process::exit(1); }
+        let got = reed_solomon_simd::encode(3, 2, &shards).unwrap();
+        if got != want { println!("FAIL one-shot encode fed with nesting shards differs from the sequential result"); std::process::exit(1); }
+        let mut d = ReedSolomonDecoder::new(3, 2, sb).unwrap();
+        d.add_original_shard(0, &shards[0]).unwrap();
+        d.add_recovery_shard(0, NestedShard(want[0].clone())).unwrap();
+        d.add_recovery_shard(1, NestedShard(want[1].clone())).unwrap();
+        let res = d.decode().unwrap();
+        if res.restored_original(1) != Some(&outer_orig[1][..]) || res.restored_original(2) != Some(&outer_orig[2][..]) {
+            println!("FAIL streaming decoder fed with nesting shards restored wrong originals"); std::process::exit(1);
+        }
+        drop(res);
+        let g = reed_solomon_simd::decode(3, 2, [(2usize, &shards[2])], [(0usize, NestedShard(want[0].clone())), (1usize, NestedShard(want[1].clone()))]).unwrap();
+        if g.get(&0) != Some(&outer_orig[0]) || g.get(&1) != Some(&outer_orig[1]) {
+            println!("FAIL one-shot decode fed with nesting shards restored wrong originals"); std::process::exit(1);
+        }
+    }
+    println!("OK pipe");
+}
+
 pub fn run_child(args: &[String], timeout: Duration) -> Result<String, String> {
     let exe = std::env::current_exe().map_err(|e| e.to_string())?;
     let mut child = Command::new(exe).args(args).stdout(Stdio::piped()).stderr(Stdio::piped()).spawn().map_err(|e| e.to_string())?;
@@ -404,6 +531,19 @@ pub fn run(ctx: &mut Ctx) {
                 Ok(s) => ctx.oracle_fail(format!("independent codecs created / dropped concurrently misbehave: {}", s), &case, None),
                 Err(e) => ctx.oracle_fail(format!("concurrent churn run failed: {}", e), &case, None),
             }
+        }
+    }
+    // nested / pipelined independent uses (a lock held across the caller's iterator or `as_ref` deadlocks here)
+    let n_pipe = if ctx.thorough() { 12 } else { 3 };
+    for _ in 0..n_pipe {
+        let sd = ctx.rng.next_u64();
+        ctx.evaluations += 1;
+        ctx.distinct.insert(sd);
+        let case = Case { name: format!("pipe seed={}", sd), lines: vec![format!("rsharness c16-pipe {}", sd)], with_model: false };
+        match run_child(&["c16-pipe".into(), sd.to_string()], Duration::from_secs(20)) {
+            Ok(s) if s.starts_with("OK") => { ctx.count("pipe", "processes_ok"); }
+            Ok(s) => ctx.oracle_fail(format!("nested / pipelined independent uses misbehave: {}", s), &case, None),
+            Err(e) => ctx.oracle_fail(format!("nested / pipelined independent uses: {}", e.chars().take(300).collect::<String>()), &case, None),
         }
     }
     // keep the distribution small
